@@ -115,6 +115,16 @@ def analyze_type(job, sdl, schema, pkg, rt, ns, t, ci, known, out):
     def add(sig, what, value, extra=None):
         out["findings"].append({"sig": sig, "what": what, "replay": {"schema": sdl, "config": job.get("config") or {}, "type": t.name, "value": value, **(extra or {})}})
 
+    # image of configured scalars on the input side: a field whose GraphQL type is (a list of) a configured scalar must be typed with
+    # the configured Python type, never Any (with Any neither the type nor the serializer applies)
+    if ctx.scalar_domain:
+        bykey = {f.key: f for f in pkg.all_fields(ci).values()}
+        for fname, gf in t.fields.items():
+            if get_named_type(gf.type).name in ctx.scalar_domain and fname in bykey:
+                f = bykey[fname]
+                if any(isinstance(n, ast.Name) and n.id == "Any" for n in ast.walk(f.ann)):
+                    add({"q": "input_image", "problem": "configured_scalar_typed_any", "field_type": str(gf.type)},
+                        f"{ci.name}.{f.name} is annotated {ast.unparse(f.ann)} although scalar {get_named_type(gf.type).name} is configured with a type", None, {"q": "input_image"})
     s0 = solver_for(ctx, C)
     if check_sat(s0, stats) != "sat":
         out["harness_errors"].append(f"{t.name}: CoerceOK unsatisfiable")
